@@ -278,8 +278,6 @@ func (r *WireReader) Skip(n int) error {
 		return errors.New("encoding.WireReader.Skip: backword skipping is not allowed")
 	}
 	if n > r.Length()-r.Pos() {
-		r.seg = len(r.wire)
-		r.pos = 0
 		return io.EOF
 	}
 	r.pos += n
